@@ -1,4 +1,5 @@
 import Wasp.Model.Broker
+import Wasp.Proofs.BrokerB
 /-!
 # C14 — a publish reaches matching subscribers on other nodes exactly once
 # C05 (first half) — stored before acknowledged
@@ -18,7 +19,7 @@ its Scheduler + writer (`deliverLocal`).
 Node peers are pairwise distinct (`PeersDistinct`).
 -/
 namespace Wasp.Broker
-open Wasp.Dist Wasp.Topic
+open Wasp.Dist Wasp.Topic Wasp.Broker.AgentB
 
 def PeersDistinct (w : World) : Prop :=
   ∀ a b, a < w.nodes.length → b < w.nodes.length → (w.node a).peer = (w.node b).peer → a = b
@@ -36,18 +37,26 @@ def logAccepts (n : Node) : Bool := !(n.logFailAll || n.logFailAt.contains n.log
 theorem C14_dest_log (w : World) (i : Nat) (p : Pub) (hd : PeersDistinct w) (hi : i < w.nodes.length) (j : Nat) (hj : j < w.nodes.length) :
     ((w.distribute i p).1.node j).log =
       (w.node j).log ++ (if (w.node j).peer ∈ destinations w i p ∧ reachableFrom w i j = true ∧ logAccepts (w.node j) = true then [p] else []) := by
-  sorry
+  have h := (distFold_spec i p (destinations w i p) (dedupNat_nodup _) w true hd).2.1 j hj
+  exact h
 
 theorem C14_result (w : World) (i : Nat) (p : Pub) (hd : PeersDistinct w) (hi : i < w.nodes.length) :
     (w.distribute i p).2 = true ↔
       ∀ peer ∈ destinations w i p, ∃ j, j < w.nodes.length ∧ (w.node j).peer = peer ∧ reachableFrom w i j = true ∧ logAccepts (w.node j) = true := by
-  sorry
+  have h := (distFold_spec i p (destinations w i p) (dedupNat_nodup _) w true hd).2.2
+  rw [distribute_eq]
+  exact h.trans ⟨fun h => h.2, fun h => ⟨rfl, h⟩⟩
 
 /-- the writer of node j only writes to sessions of subscriptions that name node j -/
 theorem C14_local_only (w : World) (j : Nat) (p : Pub) (conn : String) (pk : Pkt)
     (h : (conn, pk) ∈ (w.deliverLocal j p).out) (hnew : (conn, pk) ∉ w.out) :
     ∃ s sub, (w.node j).sess sub.session = some s ∧ s.conn = conn ∧ sub ∈ subByPattern (w.node j).dist p.topic ∧ sub.peer = (w.node j).peer := by
-  sorry
+  unfold World.deliverLocal at h
+  rcases out_send j p _ w _ h with h | ⟨sid, qos, s, hm, hs, hc⟩
+  · exact absurd h hnew
+  · simp only [List.mem_map, List.mem_filter, Prod.mk.injEq] at hm
+    obtain ⟨sub, ⟨hsub, hp⟩, rfl, rfl⟩ := hm
+    exact ⟨s, sub, hs, hc, hsub, by simpa using hp⟩
 
 /-- retain handling of the publish worker (the state before Distribute) -/
 def afterRetain (w : World) (i : Nat) (p : Pub) : World :=
@@ -64,6 +73,6 @@ theorem C05_job (w : World) (i : Nat) (p : Pub) (onOk : World → World) :
     w.publishJob i p onOk =
       (let r := (afterRetain w i p).distribute i { p with retain := false }
        if r.2 then onOk r.1 else r.1) := by
-  sorry
+  rfl
 
 end Wasp.Broker
